@@ -25,7 +25,7 @@ import vlib
 THEOREMS = ["C19_rt4", "C19_rt6", "C19_out_in_grammar4", "C19_out_in_grammar6", "C19_accepts",
             "C19_refuted", "C19_deterministic_outside_known", "C19_unwritten_exactly",
             "C19_deterministic_fixed", "C19_fixed_agrees", "C19_never_stuck",
-            "C19_bounds4", "C19_bounds6", "C19_ref_sound"]
+            "C19_bounds4", "C19_bounds4_fixed", "C19_bounds6", "C19_ref_sound"]
 
 KEY_SHORT = "ipv6-short-form-unwritten-words"
 CORPUS = os.path.join(vlib.VERIF, "corpus", "C19")
@@ -138,7 +138,7 @@ def evaluate(lines, model_exe, impls, stats=None):
     """Return (findings, variant_votes).  variant_votes counts, over the strings on which the model
     of the current code and the model of the repaired code differ, which one Impl agrees with."""
     fnd = []
-    votes = {"current": 0, "fixed": 0}
+    votes = {"current": 0, "fixed": 0, "to4_current": 0, "to4_fixed": 0}
     mout, mcrash = run_exe(model_exe, lines)
     if mcrash:
         fnd.append(Finding("model-crash", None, mcrash[1], {"output": mcrash[2]}))
@@ -160,9 +160,12 @@ def evaluate(lines, model_exe, impls, stats=None):
         if line.startswith("to"):
             addr, ln = addr_of_line(line)
             v = "4" if line.startswith("to4") else "6"
-            # --- tie
-            if (m.get("rc"), m.get("out"), m.get("n")) != (a.get("rc"), a.get("out"), a.get("n")):
+            # --- tie (to4: the model of the code as it is, or of the proposed truncation repair)
+            rcs = [m.get("rc")] + ([m.get("rcf")] if "rcf" in m else [])
+            if (m.get("out"), m.get("n")) != (a.get("out"), a.get("n")) or a.get("rc") not in rcs:
                 fnd.append(Finding("tie", "tie:to" + v, line, {"model": mo, "impl": outs["asan"][line]}))
+            elif len(set(rcs)) == 2:
+                votes["to4_current" if a.get("rc") == rcs[0] else "to4_fixed"] += 1
             # --- spec: bounds
             if a.get("canary") != "ok" or int(a.get("n", "0")) > ln:
                 fnd.append(Finding("spec-bounds", "bounds:to" + v, line, {"impl": outs["asan"][line], "len": ln}))
@@ -418,7 +421,7 @@ def shrink(f, model_exe, impls):
         # simplify digits
         for i in range(len(s)):
             for repl in (b"1", b"0"):
-                if s[i:i + 1] not in (b":", b".", repl) and s[i:i + 1].isalnum():
+                if s[i:i + 1] not in (b":", b".", b"0", b"1") and s[i:i + 1].isalnum():
                     t = s[:i] + repl + s[i + 1:]
                     if still("from " + esc(t)):
                         s = t
@@ -428,7 +431,7 @@ def shrink(f, model_exe, impls):
     if p[0] == "to6":
         for i in range(1, 9):
             for repl in ("0", "1"):
-                if p[i] != repl:
+                if p[i] not in ("0", "1"):
                     q = p[:i] + [repl] + p[i + 1:]
                     if still(" ".join(q)):
                         p = q
@@ -439,7 +442,7 @@ def shrink(f, model_exe, impls):
         for sh in (24, 16, 8, 0):
             for repl in (0, 1):
                 b = (a & ~(0xff << sh)) | (repl << sh)
-                if b != a and still("to4 %d %s" % (b, p[2])):
+                if ((a >> sh) & 0xff) > 1 and still("to4 %d %s" % (b, p[2])):
                     a = b
                     break
         return "to4 %d %s" % (a, p[2])
@@ -449,8 +452,20 @@ def shrink(f, model_exe, impls):
 # ---------------------------------------------------------------------------
 def run(chk):
     rnd = vlib.rng(19)
+    if os.path.isdir(vlib.REPLAY):          # replay files of earlier runs of this property are stale
+        for f in os.listdir(vlib.REPLAY):
+            if f.startswith("C19-%s-" % vlib.seed()):
+                os.remove(os.path.join(vlib.REPLAY, f))
     pr = vlib.check_proofs("C19", THEOREMS)
     chk.proof = pr
+    if chk.tier == "thorough" and pr.ok:      # independent re-check of the compiled proofs
+        rc, out = vlib.sh(["coqchk", "-silent", "-o", "-Q", "theories", "RtrV", "RtrV.Props.Properties_C19"],
+                          cwd=vlib.COQ, timeout=3000)
+        chk.cov["coqchk"] = " ".join(out.split())[-400:]
+        if rc != 0 or "Axioms: <none>" not in out:
+            pr.ok = False
+            pr.problems.append("coqchk: " + out[-600:])
+            pr.broken = {"what": "coqchk", "detail": out[-600:]}
     model_exe = build_model()
     impls = build_impls()
     if "msan_error" in impls:
@@ -475,6 +490,12 @@ def run(chk):
         votes[k] += v2[k]
     total = ncorpus + len(to_lines) + len(from_lines)
     variant = "fixed" if votes["fixed"] and not votes["current"] else "current"
+    variant4 = "fixed" if votes["to4_fixed"] and not votes["to4_current"] else "current"
+    for x, y, what in (("current", "fixed", "lrtr_ipv6_str_to_addr"), ("to4_current", "to4_fixed", "lrtr_ipv4_addr_to_str")):
+        if votes[x] and votes[y]:   # neither model explains the implementation on all inputs
+            findings.append(Finding("tie", "tie:mixed-variants", (from_lines or to_lines)[0],
+                                    {"what": what + " agrees with the model of the current code on some inputs and with the "
+                                             "model of the repaired code on others", "votes": votes}))
     nontriv = len(to_lines) + sum(v for k, v in stats.items() if k.startswith(("lib-accepts", "lib-rejects/pton-accepts")))
     chk.cov.update({
         "evaluations": total, "distinct_nontrivial": nontriv,
@@ -482,7 +503,7 @@ def run(chk):
                 "(strings both reject are counted in evaluations only)",
         "samples": (lines[:3] + to_lines[:2] + to_lines[1300:1302] + from_lines[:3] + from_lines[-4:]),
         "distribution": dist, "outcomes": stats,
-        "model_variant_matching_impl": variant, "variant_votes": votes,
+        "model_variant_matching_impl": {"lrtr_ipv6_str_to_addr": variant, "lrtr_ipv4_addr_to_str": variant4}, "variant_votes": votes,
         "impl_builds": sorted(k for k in impls),
         "exhaustive": False,
         "tie": "(b) differential: extracted model vs real functions on identical lines (text, return code, bytes stored, "
@@ -500,6 +521,8 @@ def run(chk):
         chk.notes.append("observation (not counted as a violation: the API documents len >= INET_ADDRSTRLEN): lrtr_ipv4_addr_to_str returns 0 "
                          "with truncated text for shorter buffers (%d cases); see proposed_fixes/C19-ipv4-truncation.diff"
                          % stats["to4_short_buffer_success_but_truncated"])
+    if variant4 == "fixed":
+        chk.notes.append("Impl agrees with the model of the repaired lrtr_ipv4_addr_to_str (ipv4_to_str_fixed); theorem C19_bounds4_fixed applies")
     if variant == "fixed":
         chk.notes.append("Impl agrees with the model of the repaired parser (str_to_ipv6_fixed); theorems C19_deterministic_fixed / C19_fixed_agrees apply")
     # report: one violation per key, shrunk
@@ -513,7 +536,8 @@ def run(chk):
             continue
         small = f.line
         try:
-            small = shrink(f, model_exe, impls)
+            if key != "tie:mixed-variants":
+                small = shrink(f, model_exe, impls)
         except Exception as e:  # noqa: BLE001
             chk.notes.append("shrink failed: %r" % (e,))
         sf, _ = evaluate([small], model_exe, impls)
